@@ -354,7 +354,55 @@ func TestVerifC08(t *testing.T) {
 func TestVerifC09(t *testing.T) {
 	hdRunProperty(t, hdProp{id: "C09", quick: 110, thorough: 1100, minOps: 20,
 		opts: func(i int) hdGenOpts { return hdGenOpts{api: true, internal: i%4 == 0, media: true, gatedAlways: i%2 == 0, endings: true} },
-		nontrivial: func(c *hdCase, tr string) bool { return hdHas(tr, "MCreate") && (hdHas(tr, "MClose") || hdHas(tr, "MFailed")) }})
+		nontrivial: func(c *hdCase, tr string) bool { return hdHas(tr, "MCreate") && (hdHas(tr, "MClose") || hdHas(tr, "MFailed")) },
+		directed: func() []*hdCase {
+			// a slow media server: the creation completes after the owner left the call / the room / was closed /
+			// lost the permission; two requests for one stream; each time for a session that holds nothing yet and
+			// for one that already holds another object
+			base := []hdOp{{K: "connect", C: 1}, {K: "connect", C: 2}, {K: "hello", C: 1, B: 0, U: 1}, {K: "hello", C: 2, B: 0, U: 2},
+				hdJoinOp(1, 1, 1), hdJoinOp(2, 1, 2),
+				{K: "api", B: 0, SignAs: 0, R: 1, Api: "incallall", InCall: 7}}
+			offer := func(c int, stream string) hdOp {
+				return hdOp{K: "media", C: c, Mk: "offer", Stream: stream, Media: 3, To: hdToSession(c)}
+			}
+			req := func(c, of int, stream string) hdOp {
+				return hdOp{K: "media", C: c, Mk: "requestoffer", Stream: stream, To: hdToSession(of)}
+			}
+			done := hdOp{K: "mcudone", Res: "ok"}
+			leaveCall := func(rs int) hdOp {
+				return hdOp{K: "api", B: 0, SignAs: 0, R: 1, Api: "incall", RawRS: true, Users: []hdApiUser{{RS: rs, InCall: 0}}}
+			}
+			del := hdOp{K: "api", B: 0, SignAs: 0, R: 1, Api: "delete"}
+			noperm := hdOp{K: "api", B: 0, SignAs: 0, R: 1, Api: "participants", RawRS: true, Users: []hdApiUser{{RS: 1, InCall: 7, HasP: true, Perm: []int{4}}}}
+			var out []*hdCase
+			id := 0
+			add := func(ops ...hdOp) {
+				all := append(append([]hdOp{}, base...), ops...)
+				all = append(all, hdOp{K: "mcuflush"}, hdOp{K: "bye", C: 1}, hdOp{K: "bye", C: 2})
+				out = append(out, &hdCase{Id: id, Mode: 1, Gated: true, Ops: all})
+				id++
+			}
+			// first object of the session
+			add(offer(1, "video"), leaveCall(1), done)
+			add(offer(1, "video"), del, done)
+			add(offer(1, "video"), noperm, done)
+			add(offer(1, "screen"), hdOp{K: "api", B: 0, SignAs: 0, R: 1, Api: "incallall", InCall: 0}, done)
+			add(offer(1, "video"), hdOp{K: "api", B: 0, SignAs: 0, R: 1, Api: "disinvite", RawRS: true, Users: []hdApiUser{{RS: 1}, {U: 1}}}, done)
+			// a publisher exists, the subscriber of the other session is slow
+			add(offer(1, "video"), done, req(2, 1, "video"), leaveCall(2), done)
+			add(offer(1, "video"), done, req(2, 1, "video"), del, done)
+			add(offer(1, "video"), done, offer(2, "screen"), done, req(2, 1, "video"), leaveCall(2), done)
+			// failing creations, and the owner gone for good
+			add(offer(1, "video"), hdOp{K: "mcudone", Res: "fail"}, offer(1, "video"), done)
+			add(offer(1, "video"), hdOp{K: "drop", C: 2}, hdOp{K: "tick", O: 40}, done)
+			// two creations in flight for one stream of one session: the later one is closed again, the first stays
+			// (and is closed when its owner leaves)
+			add(offer(1, "video"), done, req(2, 1, "video"), req(2, 1, "video"), done, done, req(2, 1, "video"), leaveCall(2))
+			add(offer(1, "video"), done, req(2, 1, "video"), req(2, 1, "video"), hdOp{K: "mcudone", Res: "fail"}, done, del)
+			add(offer(1, "video"), hdOp{K: "connect", C: 3}, hdOp{K: "hello", C: 3, Ht: "resume", Id: &hdIdRef{T: "priv", C: 1}},
+				offer(3, "video"), done, done, offer(3, "video"), leaveCall(1))
+			return out
+		}})
 }
 
 // ---- C19 ----
